@@ -98,14 +98,14 @@ func (d *motionDetector) Reset(camera cptvframe.CameraSpec) {
 }
 
 func (d *motionDetector) calculateThreshold(backAverage float64) {
+	thresh := backAverage
 	if d.tempThreshMin != 0 {
-		d.tempThresh = uint16(math.Max(backAverage, float64(d.tempThreshMin)))
-	} else {
-		d.tempThresh = uint16(backAverage)
+		thresh = math.Max(thresh, float64(d.tempThreshMin))
 	}
 	if d.tempThreshMax != 0 {
-		d.tempThresh = uint16(math.Min(backAverage, float64(d.tempThreshMax)))
+		thresh = math.Min(thresh, float64(d.tempThreshMax))
 	}
+	d.tempThresh = uint16(thresh)
 }
 
 func (d *motionDetector) Detect(frame *cptvframe.Frame) bool {
